@@ -81,6 +81,9 @@ pub enum Case {
     /// reports, keys and mouse sequences (printed by the C04 protocol printer) typed into the pty in
     /// batches of arbitrary size while output is pending: the events must come out as printed
     Events { items: Vec<super::c04::Item>, batches: Vec<usize>, pending_kb: usize, slow: bool, seed: u64 },
+    /// a thread issues this many wakes while nobody polls: every call returns (requests coalesce,
+    /// they do not queue up behind a full socket), and the next poll reports a wake
+    WakeFlood { wakes: usize, seed: u64 },
     /// the terminal emulator stops reading while a lot of output is queued: polls still return in
     /// bounded time and a wake is still delivered; `via_fd` builds the terminal with
     /// `SystemTerminal::new_from_fd` from an ordinary (blocking) descriptor instead of `open`
@@ -737,6 +740,62 @@ fn check_quit_case(signal: i32, pending_kb: usize, again: bool, seed: u64, ctx: 
     Ok(())
 }
 
+/// Wakes issued from another thread while the application is busy elsewhere (it does not poll).
+/// The calls must come back - a wake that blocks until somebody polls can deadlock a program whose
+/// poller waits for the waking thread. Verdict in logical terms: the waking thread is finished
+/// before the first poll is made; the wait for it is bounded (5 s) and generous (the calls take
+/// microseconds).
+fn check_wake_flood_case(wakes: usize, seed: u64, ctx: &mut Ctx) -> Result<(), Fail> {
+    let (mut session, before) = open_session(Drain::Fast, seed, None)?;
+    let mut term = session.term.take().unwrap();
+    let waker = term.waker();
+    let done = Arc::new(std::sync::atomic::AtomicBool::new(false));
+    let issued = Arc::new(AtomicUsize::new(0));
+    let handle = {
+        let (done, issued) = (done.clone(), issued.clone());
+        std::thread::spawn(move || {
+            for _ in 0..wakes {
+                if waker.wake().is_err() {
+                    break;
+                }
+                issued.fetch_add(1, Ordering::SeqCst);
+            }
+            done.store(true, Ordering::SeqCst);
+        })
+    };
+    let mut waited = 0;
+    while !done.load(Ordering::SeqCst) && waited < 500 {
+        std::thread::sleep(Duration::from_millis(10));
+        waited += 1;
+    }
+    let finished_unpolled = done.load(Ordering::SeqCst);
+    let issued_before_poll = issued.load(Ordering::SeqCst);
+    // now poll: this also releases a waker that was stuck
+    let mut wake_seen = false;
+    for _ in 0..200 {
+        match term.poll(Some(Duration::from_millis(5))) {
+            Ok(Some(TerminalEvent::Wake)) => wake_seen = true,
+            Ok(_) => {}
+            Err(e) => fail!("input:poll-error", "poll failed after a flood of wakes: {e:?}"),
+        }
+        if wake_seen && done.load(Ordering::SeqCst) {
+            break;
+        }
+    }
+    let _ = handle.join();
+    ctx.feat("wake-flood.sessions");
+    ctx.feat_n("wake-flood.calls", issued.load(Ordering::SeqCst) as u64);
+    ensure!(
+        finished_unpolled,
+        "wake:blocks-when-unpolled",
+        "{wakes} wakes issued by a thread while nobody polled: after 5 s only {issued_before_poll} calls had returned (the rest went through once polling started)"
+    );
+    ensure!(wake_seen, "wake:lost", "{wakes} wakes were issued before the first poll, no Wake event was delivered");
+    drop(term);
+    check_restored(&session, before, "after-wake-flood", true, ctx)?;
+    Ok(())
+}
+
 /// The peer stops reading (a stalled terminal emulator) while hundreds of KiB are queued. While it
 /// is stalled every `poll(Some(20 ms))` must come back, and a wake issued meanwhile must be delivered.
 /// A helper thread resumes the peer after 4 s whatever happens, so a poll that blocks inside
@@ -1181,6 +1240,10 @@ impl Prop for C17 {
                     seed: rng.next_u64(),
                 }
             }
+            7 if rng.chance(1, 4) => Case::WakeFlood {
+                wakes: *rng.pick(&[300usize, 1000, 5000]),
+                seed: rng.next_u64(),
+            },
             7 if rng.chance(1, 3) => Case::Stall {
                 via_fd: rng.bool(),
                 kb: *rng.pick(&[300usize, 600, 1024]),
@@ -1233,6 +1296,7 @@ impl Prop for C17 {
                 check_events_case(items, batches, *pending_kb, *slow, *seed, ctx)
             }
             Case::Stall { via_fd, kb, seed } => check_stall_case(*via_fd, *kb, *seed, ctx),
+            Case::WakeFlood { wakes, seed } => check_wake_flood_case(*wakes, *seed, ctx),
             Case::Quit { signal, during_open, seed, .. } if *during_open > 0 => {
                 check_quit_during_open(*signal, *during_open, *seed, ctx)
             }
